@@ -113,7 +113,9 @@ VOCAB = ["address-family ipv4 unicast", "address-family ipv6", "address-family l
          "prefix-set PS1", "as-path-set A1", "community-set C1", "policy-map PM", "class-map match-any CM", "vrf definition V", "xpl route-filter RF",
          "interface GigabitEthernet0/1", "router bgp 65000", "neighbor 1.1.1.1", "route-map RM permit 10", "ip access-list extended ACL", "control-plane",
          "line vty 0 4", "bgp 65000", "ipv4-family unicast", "ospf 1", "area 0.0.0.0", "aaa", "user-interface vty 0 4", "vlan batch 10 20", "policy-options",
-         "protocols", "group G1", "class C1", "if destination in PS1 then", "else", "apply RP2"]
+         "protocols", "group G1", "class C1", "if destination in PS1 then", "else", "apply RP2",
+         # single words that end something in some CLI, as plain rows (a `return` / `end` line also closes a device dump)
+         "end", "return", "commit", "abort"]
 
 
 def vocab_tree(rng, vname, d=0, maxd=4):
